@@ -1081,7 +1081,7 @@ func runR178(c *core.Ctx) {
 					if !ok || v.IsField() || v.Pkg() == nil || v.Parent() == v.Pkg().Scope() {
 						return nil // package-level state is R17.1's business
 					}
-					if v.Pos() >= fl.Pos() && v.Pos() <= fl.End() {
+					if core.ObjPos(v) >= fl.Pos() && core.ObjPos(v) <= fl.End() {
 						return nil
 					}
 					return v
@@ -1356,7 +1356,7 @@ func runR126(c *core.Ctx) {
 									continue
 								}
 								o := core.ObjOf(inf, id)
-								if o == nil || owned[o] || o.Pos() < fd.Body.Pos() || o.Pos() > fd.Body.End() {
+								if o == nil || owned[o] || core.ObjPos(o) < fd.Body.Pos() || core.ObjPos(o) > fd.Body.End() {
 									continue
 								}
 								// every definition of o must be owned
@@ -2126,7 +2126,7 @@ func (st *aliasState) isOwnLocal(l ast.Expr) (types.Object, bool) {
 	if o == nil || st.results[o] || o.Parent() == nil || o.Pkg() == nil || o.Parent() == o.Pkg().Scope() {
 		return o, false
 	}
-	return o, o.Pos() >= st.body.Pos() && o.Pos() <= st.body.End()
+	return o, core.ObjPos(o) >= st.body.Pos() && core.ObjPos(o) <= st.body.End()
 }
 
 func (st *aliasState) alias(e ast.Expr) bool {
@@ -2550,7 +2550,33 @@ func runR018(c *core.Ctx) {
 						return true
 					}
 					for _, ix := range idxs {
-						if ix != nil && mentions(inf, ix, key) {
+						if ix == nil {
+							continue
+						}
+						// uses of the key that index the ranged string itself (chars[i]) are what the offset is for
+						direct := false
+						var walk func(e ast.Node)
+						walk = func(e ast.Node) {
+							ast.Inspect(e, func(z ast.Node) bool {
+								switch w := z.(type) {
+								case *ast.IndexExpr:
+									if core.SameExpr(inf, w.X, rs.X) {
+										return false
+									}
+								case *ast.SliceExpr:
+									if core.SameExpr(inf, w.X, rs.X) {
+										return false
+									}
+								case *ast.Ident:
+									if core.ObjOf(inf, w) == key {
+										direct = true
+									}
+								}
+								return true
+							})
+						}
+						walk(ix)
+						if direct {
 							problems = append(problems, core.ExprString(base)+" is indexed with the rune offset "+key.Name())
 						}
 					}
@@ -2781,7 +2807,7 @@ func runR168(c *core.Ctx) {
 					}
 					for i, l := range as.Lhs {
 						o := core.ObjOf(inf, l)
-						if o == nil || o.Pos() >= x.Pos() && o.Pos() <= x.End() {
+						if o == nil || core.ObjPos(o) >= x.Pos() && core.ObjPos(o) <= x.End() {
 							continue // declared inside the loop
 						}
 						if b, ok := o.Type().Underlying().(*types.Basic); !ok || b.Kind() != types.Bool {
